@@ -143,7 +143,7 @@ def module_of(relpath: str) -> str:
     return p.replace("/", ".")
 
 
-EXTERNALS = ["os", "os.path", "ext.lib.x", "ext.lib", "extra", "proj_ext.m", "projx", "aproj", "ab.cd", "a", "ext.lib.x.y.z", "deep.er.than.most",
+EXTERNALS = ["Proj.x", "PROJ", "os", "os.path", "ext.lib.x", "ext.lib", "extra", "proj_ext.m", "projx", "aproj", "ab.cd", "a", "ext.lib.x.y.z", "deep.er.than.most",
              "roj.a", "roj", "pro", "pproj.a"]   # the last four: internal names with a character cut off / added
 
 
